@@ -104,6 +104,16 @@ func (x *c20SX) model(fn *types.Func, call *ast.CallExpr, recv *c20V, args []c20
 				}
 			}
 			return c20Unknown("`%s`", x.srcOf(call)), true
+		case "strconv.AppendFloat":
+			// AppendFloat(buf, x, fmt, prec, bits) appends FormatFloat(x, fmt, prec, bits)
+			if len(args) == 5 && args[0].k == c20kBytes && args[0].tag == "" {
+				if s, ok := x.model(x.formatFloatFn(fn), call, nil, args[1:], st); ok && s.k == c20kStr {
+					n := args[0]
+					n.sym = append(append(c20Sym(nil), n.sym...), s.sym...)
+					return n, true
+				}
+			}
+			return c20Unknown("`%s`", x.srcOf(call)), true
 		case "strconv.FormatFloat":
 			// FormatFloat(x, 'f', 6, 64) prints like %f
 			if len(args) == 4 && args[0].k == c20kIn && args[0].h != nil && args[1].k == c20kInt && args[2].k == c20kInt && args[3].k == c20kInt {
@@ -195,6 +205,20 @@ func (x *c20SX) model(fn *types.Func, call *ast.CallExpr, recv *c20V, args []c20
 			return v, true
 		}
 		return c20Unknown("`%s`: only a url.Values literal with one value per constant key is understood", x.srcOf(call)), true
+	case "time.Time.AppendFormat":
+		// t.AppendFormat(buf, layout) appends t.Format(layout)
+		if recv.k == c20kIn && len(args) == 2 && args[0].k == c20kBytes && args[0].tag == "" && args[1].k == c20kStr && len(args[1].sym.holes()) == 0 {
+			zone := "local"
+			if recv.tag == "utc" {
+				zone = "utc"
+			}
+			h := *recv.h
+			h.fn = zone + ":" + args[1].sym.render(nil)
+			n := args[0]
+			n.sym = append(append(c20Sym(nil), n.sym...), c20Tok{hole: &h})
+			return n, true
+		}
+		return c20Unknown("`%s`", x.srcOf(call)), true
 	case "time.Time.Format":
 		if recv.k == c20kIn && len(args) == 1 && args[0].k == c20kStr && len(args[0].sym.holes()) == 0 {
 			zone := "local"
